@@ -133,10 +133,13 @@ def gen_history(r, wd, tag, crc, nops, backup, grow=(60000, 120000, 200000)):
     else:
         if r.random() < 0.7:
             ops.append("sync"); acts.append(("sync",))
-            for _ in range(r.randrange(0, 4)):
+            for _ in range(r.randrange(0, 5)):      # unsynced tail
                 o, a = one_op()
                 if a[0] in ("put", "del"):
                     ops.append(o); acts.append(a)
+            for _ in range(r.randrange(0, 4)):      # ... with segments flushed because the buffer filled up
+                d, k, ln, seed = r.choice(dbs), r.choice(keys), r.randrange(3800, 9000), r.randrange(1, 250)
+                ops.append("put %d %s %d %d" % (d, k.hex(), ln, seed)); acts.append(("put", d, k, ln, seed))
         ops.append("snap %s %s" % (os.path.join(wd, tag + ".pre"), os.path.join(wd, tag + ".wal")))
         acts.append(("snap",))
         ops.append("close"); acts.append(("close",))
@@ -558,7 +561,27 @@ def cases_for(ctx, r, lg, wd, quota_cuts, quota_flips, mfrac):
                 if before:
                     p, ln, op = r.choice(before)
                     extra.append([(p + r.choice([0, 0, 1, 8, 9]), 1 << r.randrange(8))])
+        # a separator's own header is not covered by any checksum: turn its id into another valid opcode
+        subs = []
+        seps = [p for (p, ln, op) in recs if op == SEP]
+        last_sp = max([p for (p, ln, op) in recs if op == SAVEPOINT] or [0])
+        tail_seps = [p for p in seps if p > last_sp]
+        for p in tail_seps[:4] + ([r.choice(seps)] if seps else []):
+            for newop in (SAVEPOINT, RESET, SET):
+                subs.append([(p, SEP ^ newop)])
+        ctx.hist("opsub-tail-separators", len(tail_seps))
+        # (the first byte decides whether _iwkv_check_online_backup takes a file for a backup image at all)
+        img0 = lambda fl: lg.mode == 2 and any(p == 0 for p, _ in fl)
+        for fl in subs:
+            if img0(fl):
+                items.append(("noimage", len(wal), fl, "rec %s %d %d %d %s" % (work, lg.mode, lg.crc, len(wal), flips_text(fl))))
+                continue
+            items.append(("opsub", len(wal), fl, "rec %s %d %d %d %s" % (work, lg.mode, lg.crc, len(wal), flips_text(fl))))
+            items.append(("scan", len(wal), fl, "scan %d %s" % (len(wal), flips_text(fl))))
         for fl in pick_flips(r, wal, recs, quota_flips) + extra:
+            if img0(fl):
+                items.append(("noimage", len(wal), fl, "rec %s %d %d %d %s" % (work, lg.mode, lg.crc, len(wal), flips_text(fl))))
+                continue
             items.append(("flip", len(wal), fl, "rec %s %d %d %d %s" % (work, lg.mode, lg.crc, len(wal), flips_text(fl))))
             items.append(("scan", len(wal), fl, "scan %d %s" % (len(wal), flips_text(fl))))
     cases = []
@@ -583,7 +606,13 @@ def evaluate(ctx, cases, iout, icr, mout, mcr):
             k = len(partial) - 1      # partial[0] answers `load`
             kind, cut, flips, opl = chunk[max(0, min(k, len(chunk) - 1))]
             skind, fn = san_site(err)
-            sig = dict(kind="crash", site=fn, what=skind, damage=kind, at=where(recs, flips[0][0]) if flips else where(recs, max(0, cut - 1)))
+            first = min(p for p, _ in flips) if flips else cut
+            region = "before-last-reset" if lg.resets and first < lg.resets[-1][0] else "tail"
+            if kind == "cut" and region == "before-last-reset":
+                ctx.hist("result-outside-crash-model-died")     # see check_rec: such a cut is not a lost tail
+                continue
+            sig = dict(kind="crash", cls="crash", site=fn, what=skind, damage=kind, region=region, resets=str(len(lg.resets)),
+                       at=where(recs, flips[0][0]) if flips else where(recs, max(0, cut - 1)))
             ctx.fail(sig, dict(log=lg.tag, history=lg.ops, op=opl, stderr=err[-3000:]), "recovery died (%s in %s) on `%s`" % (skind, fn, opl))
             ctx.case((lg.tag, "crash", opl))
             continue
